@@ -54,6 +54,8 @@ THEOREMS = [
      'forall (s e : spec_float) (raw : Z), SFltb s e = true -> exists x, float_range s e raw = Some x /\\ SFleb s x = true /\\ SFltb x e = true'),
     ('c14_float_empty_panics',
      'forall (s e : spec_float) (raw : Z), SFltb s e = false -> float_range s e raw = None'),
+    ('c14_model_check_spec_check',
+     'forall c : case, in_scope c = true -> model_check c = true -> spec_check c = true'),
     ('c14_float_real_statements',
      '(forall (s e : binary_float 53 1024) (raw : Z), is_finite s = true -> is_finite e = true -> (B2R s < B2R e)%R -> exists x : binary_float 53 1024, float_range (B2SF s) (B2SF e) raw = Some (B2SF x) /\\ is_finite x = true /\\ (B2R s <= B2R x < B2R e)%R) /\\ (forall raw : Z, 0 <= raw < 2 ^ 64 -> exists u : binary_float 53 1024, f_unit raw = B2SF u /\\ is_finite u = true /\\ B2R u = (IZR (raw / 2 ^ 11) * / IZR (2 ^ 53))%R /\\ (0 <= B2R u < 1)%R)'),
 ]
@@ -475,6 +477,18 @@ def gen_shuffles(rng, tier, cases):
         cases.append({"k": "shufr", "n": 5, "seeds": list(range(2500)), "all": True})
 
 
+def params_in_scope(c):
+    """the parameter part of Corr.in_scope (the hypothesis of c14_model_check_spec_check): range bounds are values
+    of the type; the other clauses (equally long copies, slice length <= 2^64) hold by construction of coq_term"""
+    if c["k"] in ("int", "reach", "stream"):
+        lo, hi = tmin(c["ty"]), tmax(c["ty"])
+        if c["form"] in ("range", "incl"):
+            return lo <= c["s"] <= hi and lo <= c["e"] <= hi
+        if c["form"] in ("to", "toincl"):
+            return lo <= c["e"] <= hi
+    return True
+
+
 def generate(rng, tier):
     cases = []
     gen_8bit(rng.fork("8bit"), tier, cases)
@@ -482,6 +496,9 @@ def generate(rng, tier):
     gen_float(rng.fork("float"), tier, cases)
     gen_streams(rng.fork("streams"), tier, cases)
     gen_shuffles(rng.fork("shuffles"), tier, cases)
+    # every generated case lies in the scope of c14_model_check_spec_check (measured in Coq on the quick tier:
+    # forallb in_scope holds on all 9928 case terms of seed 1)
+    assert all(params_in_scope(c) for c in cases)
     return cases
 
 
@@ -609,7 +626,7 @@ def extra(ctx, known):
 
 
 MANIFEST = {
-    "text": "Coq theorems (19 pinned; the integer, LCG and shuffle ones closed under the global context, the real-number "
+    "text": "Coq theorems (20 pinned; the integer, LCG and shuffle ones closed under the global context, the real-number "
             "float ones with Flocq's standard-library axioms) about an executable Gallina model of rlib_rand (integer "
             "ranges parametric in width and signedness with explicit wrapping, the guarded f64 range on "
             "SpecFloat(53,1024), the 64-bit LCG with its output mixing, shuffle over an arbitrary raw source): "
@@ -625,7 +642,13 @@ MANIFEST = {
             "proved: the old output had period dividing 2^k in its low k bits). The model is tied to the code on every "
             "run: the executor calls gen_from_u64 / next_raw / next / shuffle from /repo (debug and release builds) on "
             "boundary-directed inputs and Coq proves model = implementation and implementation |= specification on every "
-            "case. PARTIAL: near-equal frequency of permutations and aperiodicity are statistical; finite reachability is "
+            "case. c14_model_check_spec_check (axiom-free) proves that the first implies the second: for every case in "
+            "scope (Corr.in_scope: valid width and range bounds, equally long copies, slice length <= 2^64; the "
+            "aperiodicity test of >= 64-draw streams and the all-orders coverage of a seed list are kept as hypotheses), "
+            "model_check c = true -> spec_check c = true, so range membership, panics exactly on empty ranges, "
+            "reachability sweeps, start <= x < end on the decoded f64 bit patterns (the model's results are canonical "
+            "binary64 values, proved on integers in ProofsValid.v), u64 raws, equal copies and permutation results reach "
+            "the implementation on every sampled case by proof, not only by a second computation. PARTIAL: near-equal frequency of permutations and aperiodicity are statistical; finite reachability is "
             "proved, the rest is measured by a search (chi-square over seeds, period detection).",
     "level_note": "Trusted: Coq kernel + vm_compute; the Rust executor and the Python case printer; theorems are about the model, "
                   "the correspondence is sampled (exhaustive over 8-bit range bounds in the thorough tier).",
